@@ -62,6 +62,12 @@ DESC = {
  "C10-r3c10_1": ("Map<const SO3Tangent> traits inherit the owning DataType: the const view becomes a snapshot of the buffer", "const tangent view created, buffer modified, view used again; or view.data() compared with the buffer", "sub-agent seed-r3c10, round 3 (property text only)"),
  "C10-r3c10_2": ("ceres Plus functors use the output block as scratch (out = exp(d); out = state*out)", "the caller passes the same pointer as state and as output of the functor", "sub-agent seed-r3c10, round 3 (property text only)"),
  "C10-r3c10_3": ("MANIF_TANGENT_MAP_ASSIGN_OP: operator=(Map&&) re-seats the tangent view instead of copying", "a tangent Map assigned from an rvalue Map of the same type (std::move, or temporaries from asSO3()/element<i>())", "sub-agent seed-r3c10, round 3 (property text only)"),
+ "C03-r3c03_1": ("SGal3 log: small-rotation shortcut E = I/2 hoisted out of fillE and compared with eps_sqrt instead of eps", "SGal3 only, time and velocity non-zero, rotation angle in [1.5e-7, 3.9e-4): exp still uses the full series, the translation of log is off by ~theta/6 |t nu|", "sub-agent seed-r3c03, round 3 (property text only)"),
+ "C03-r3c03_2": ("SO3Tangent::ljac threshold eps replaced by the literal 1e-8 with a second-order series (an improvement for double)", "float only: angles in (1e-4, 3.45e-3) take the closed form where 1-cos cancels; exp of SE3f/SE_2_3f/SGal3f is wrong by 1e-5..6.5e-5 relative, log is not, so log(exp t) != t", "sub-agent seed-r3c03, round 3 (property text only)"),
+ "C03-r3c03_3": ("SO3 log generic branch: 2 atan2(|v|, w) with the hemisphere fold replaced by +-2 asin(|v|)", "angle pi - delta: error 4e-16/delta; |v| rounding just above 1 gives NaN (5% of composed rotations by about pi)", "sub-agent seed-r3c03, round 3 (property text only)"),
+ "C08-r3c08_1": ("SE2 compose renormalises when abs(norm-1) > eps with exact division instead of abs(sqnorm-1) > eps with approxSqrtInv", "SE2 only, long histories (hundreds of X *= D, 1e5 random-walk steps): the norm lands exactly on 1+eps, kept by compose, refused by the constructor inside compose (assertion build throws; NDEBUG leaves it on the threshold)", "sub-agent seed-r3c08, round 3 (property text only)"),
+ "C08-r3c08_2": ("SE_2_3 inverse takes the quaternion from the transposed rotation matrix instead of the conjugate", "SE_2_3 only, rotation angle in (90, 120) degrees: the norm deviation is amplified up to 3x per inversion (6-30 repeated inversions, or one inverse of an operand 0.45 eps off)", "sub-agent seed-r3c08, round 3 (property text only)"),
+ "C08-r3c08_3": ("SE3 normalize(): the norm is computed inside MANIF_ASSERT (side effect in an assertion macro)", "NDEBUG builds only, SE3 only, normalize() only: division by 0, rotation coefficients become +-inf; the repo tests call normalize() only in assertion builds", "sub-agent seed-r3c08, round 3 (property text only)"),
 }
 
 
@@ -70,6 +76,13 @@ NOTES = {
                 "destination view inside one buffer.  Views that overlap each other are outside the property's quantifier (user buffers with "
                 "guard zones); plain `Map = Map` on overlapping buffers is not overlap-safe on the pinned tree either (Eigen assumes no aliasing), "
                 "so a model of what overlapping views 'should' do would have to be invented.  Recorded as a known blind spot in DESIGN.md section 12.",
+ "C03-r3c03_1": "Confirmation note: the first full run of the repo suite with this patch reported 1 of 17 executables failing while three other "
+                "builds were loading the machine (the log was overwritten before the failing executable was identified); a second full run passed "
+                "17 of 17 and 18 further runs of gtest_sgal3 / gtest_bundle / gtest_bundle_single_group (time(0)-seeded) passed.  Recorded as passing.",
+ "C03-r3c03_2": "NOT DETECTED, and judged not detectable with a sound margin: the float error the change introduces (<= 1.9 a, a = eps_mach/sqrt(Constants::eps) "
+                "= 3.5e-5) stays inside the accuracy class that the library's own small-angle switch defines (the pinned tree reaches 0.5 a right above its "
+                "switch and uses up to a quarter of the 16 a (1+L) tolerance in 2400 histories).  A legitimate implementation that moves the switch to eps/10 has "
+                "the same worst case, so a tolerance tight enough to flag this change would raise alarms on code where the property holds.",
  "C10-r3c10_2": "NOT COUNTED as a break of C10, not detected and deliberately not attempted: every manif operation, through every kind of view, behaves "
                 "as before; the only observable difference needs the caller to pass one pointer as both the input state and the output of the "
                 "ceres functor.  Neither the property (views vs owning objects; exact writes; no stray reads) nor the contract of ceres' Plus "
